@@ -111,7 +111,7 @@ def check_spec(spec: NetSpec, label, st: Stats, plan):
     plain = {}
     for sym in plan["cs_sym"]:
         try:
-            F, built, eng = cs_compile(spec, sym, P, compact=0)
+            F, built, eng = cs_compile(spec, sym, P, compact=0, more_out=True)
             plain[sym] = Compiled(F, built)
             st.inc("transitions", 2)
         except Exception as e:  # noqa: BLE001
@@ -156,6 +156,18 @@ def check_spec(spec: NetSpec, label, st: Stats, plan):
                 break
             compare(spec, got, clamp_next(ref, opts), f"numpy {sorted(opts)}", vlabel, dict(case, engine="numpy"), problems, st,
                     f"C11/numpy/{osig}")
+            # the same options as truthy values that are not the `True` singleton (numpy.bool_, as comparisons of arrays
+            # yield, and the integer 1)
+            for alt_name, alt in (("numpy.True_", np.True_), ("1", 1)):
+                try:
+                    st.inc("executions")
+                    gota, _, _ = np_step(spec, val, P, opts={o: alt for o in opts})
+                except Exception as e:  # noqa: BLE001
+                    problems.append((f"C11/exception/{exc_site(e)}/{type(e).__name__}", f"numpy {sorted(opts)} given as {alt_name}: "
+                                     f"{exc_text(e)}", case))
+                    break
+                compare(spec, gota, clamp_next(ref, opts), f"numpy {sorted(opts)} given as {alt_name}", vlabel,
+                        dict(case, engine="numpy", flag_value=alt_name), problems, st, f"C11/numpy-flag-value/{osig}")
             # the same options given POSITIONALLY, in the documented order of Network.step
             try:
                 st.inc("executions")
@@ -171,7 +183,7 @@ def check_spec(spec: NetSpec, label, st: Stats, plan):
                 continue
             st.inc("transitions", 2)
             try:
-                F, built, eng = cs_compile(spec, sym, P, opts=od, compact=0)
+                F, built, eng = cs_compile(spec, sym, P, opts=od, compact=0, more_out=True)
                 comp = Compiled(F, built)
                 allv = specials + (dvecs if len(opts) in (1, 6) or plan.get("dense") else [])
                 got = comp.eval_many([v for _, v in allv])
@@ -183,6 +195,17 @@ def check_spec(spec: NetSpec, label, st: Stats, plan):
             for (vlabel, val), g, r in zip(allv, got, ref):
                 r2 = clamp_next({k: r[k] for k in state_keys}, opts)
                 compare(spec, g, r2, f"{sym} {sorted(opts)}", vlabel, dict(case, engine=sym), problems, st, f"C11/{sym}/{osig}")
+                # the extra flow outputs are functions of the (clamped) current states only
+                for slot, arr in r.items():
+                    if slot[0] != "x":
+                        continue
+                    garr = g.get(slot)
+                    st.inc("components_compared", len(arr))
+                    if garr is None or len(garr) != len(arr) or not all(same(x, y) for x, y in zip(garr, arr)):
+                        problems.append((f"C11/{sym}/{osig}/flow-output", f"{sym} {sorted(opts)}: flow output {slot[1]} = "
+                                         f"{None if garr is None else garr.tolist()}, plain function at the clamped inputs gives "
+                                         f"{arr.tolist()} at {vlabel}", dict(case, engine=sym)))
+                        break
     # histories: the same network objects stepped with one option set and then with another (engine-created
     # symbols); the second step must behave exactly like that step on a fresh network
     if plan.get("hist"):
